@@ -248,6 +248,9 @@ func c10StatObject(c *Ctx, a *sketchAnchors, rule string, part string) {
 	fields := structFields(st)
 	var fnames []string
 	for _, f := range fields {
+		if !c.fieldCarriesState(f) {
+			continue // a field no code reads is not part of the statistics
+		}
 		fnames = append(fnames, f.Name())
 	}
 	ctor := c.P.Func(pkgStat, "NewSummaryStatistics")
